@@ -135,6 +135,11 @@ CHECKS = {
          "Sampling, not proof: a pure function over 2^128 arguments; boundary classes are listed in the evidence rule; TLC/SANY/Json trusted.",
          "TLA+ definitions (executable specification) evaluated by TLC on recorded calls of the real functions",
          "DESIGN.md 4.10, 5 C31, 9"),
+ "C32": ("poolrun", "model_checking",
+         "Pool.tla models the pool's concurrency skeleton one action per blocking point (Run: start worker, listen, publish the listener under its lock, accept, wg.Wait, close done; the strand worker; Strand callers on the unbuffered request channel; Connect with its WaitGroup registration and connection goroutine; Shutdown) and TLC checks every interleaving of Run, worker, two callers, their connection goroutines and Shutdown (25k states, with liveness): Shutdown terminates, every call returns, no result cell is read while the worker may write it, wg.Add never runs from zero during wg.Wait, nothing registered and no pool goroutine left after Shutdown, a call answered closed was not made; the three pre-repair designs (PoolAsIs*.cfg) are each refuted by TLC. Binding: a real ConnectionPool on 127.0.0.1 built with -race, 1-4 goroutines issuing random operations and network events with scheduling noise under GOMAXPROCS 1..16, Shutdown after a seeded delay (0 = overlapping the start of Run), every operation again after Shutdown; one record per pool lifetime, per race-detector report and per crash of the process, each checked by TLC against PoolCore's operators (shared with the model).",
+         "Schedules of the real pool are sampled, not enumerated (the exhaustive part is the model); 5 s watchdogs define 'never returns'; daemon callbacks not installed.",
+         "TLA+ spec + TLC model checking incl. liveness (and refutation of the pre-repair designs); record->validate by TLC of real pool lifetimes under the Go race detector",
+         "DESIGN.md 5 C32, 9"),
  "C33": ("sync", "model_checking",
          "Sync.tla Process/Replies define what one GIVB message does (blocks at or below the head at arrival are skipped, the first block that cannot be appended ends the message, progress is announced and followed by a request above the new head). MCSync model-checks, for a network that loses, duplicates and reorders and an adversary with hostile payloads, that the follower only ever holds a gap-free prefix of what it was given and converges under fair periodic requests (liveness). TLC-simulated payload sequences (GenSync) and seeded ones (permutations, duplicates, forged and non-extending blocks) are sent to a real node over TCP with a PING/PONG barrier after each message; TLC checks head, chain-is-publisher-prefix and the node's replies per message; convergence runs answer the node's periodic requests with lost, duplicated and hostile answers first.",
          "TCP localhost ordering; forged = signed by another key, alien = publisher-signed with a wrong parent (by construction); chain of 4-5 one-transaction blocks.",
